@@ -103,7 +103,7 @@ def replay(t):
         steps.append("other_process")
     for i, op in enumerate(steps):
         wpre = digest(doc)
-        out, exc, issues, expected = "ok", "none", [], []
+        out, exc, issues, expected, rerun_same = "ok", "none", [], [], True
         try:
             if op == "default_validate":
                 lastv, lastkey = V.Validation(doc), "doc"
@@ -130,12 +130,17 @@ def replay(t):
             elif op == "register_optional" and cur is not None:
                 cur.register_custom_handler("section", V.section_repository_present)
                 cur.register_custom_handler("property", V.property_terminology_check)
+                cur.register_custom_handler("section", V.section_unique_ids)
+                cur.register_custom_handler("section", V.property_unique_ids)     # the rule walks the Properties of a Section
             elif op.startswith("register_") and cur is not None:
                 cur.register_custom_handler(op[9:], custom_rule)
                 registered.add(op[9:])
             elif op == "run_custom" and cur is not None:
                 cur.run_validation()
                 issues = issues_of(cur.errors)
+                # the same unchanged objects validated again by the same private instance
+                cur.run_validation()
+                rerun_same = sorted(map(json.dumps, issues_of(cur.errors))) == sorted(map(json.dumps, issues))
                 for s in doc.itersections():
                     if "section" in registered:
                         expected.append({"x": "BaseSection|%s" % s.get_path(), "k": 701, "rank": "warning", "m": "custom rule fired"})
@@ -175,7 +180,7 @@ def replay(t):
             key = None
         yield {"fam": "registry", "src": "model", "hist": hist, "step": i, "op": op, "out": out, "exc": exc,
                "rules0": RULES0, "rules": registry_snapshot(), "worldpre": wpre, "worldpost": wpost,
-               "issues": issues, "custom_issues": [x for x in issues if x["k"] == 701], "prev": prev, "prevworld": prevworld, "custom_expected": expected}
+               "rerun_same": rerun_same, "issues": issues, "custom_issues": [x for x in issues if x["k"] == 701], "prev": prev, "prevworld": prevworld, "custom_expected": expected}
         if key and op in VALIDATIONS and out == "ok":
             prevs[key] = (issues, wpost)
     import shutil
